@@ -246,10 +246,13 @@ class NBGen:
             keys += r.sample(["text/html", "image/png", "image/svg+xml", "application/json",
                               "application/javascript", "text/latex", "application/vnd.custom+json",
                               "text/markdown"], r.choice([0, 0, 1, 1, 2, 3]))
+            if r.random() < 0.08:
+                # MIME types are case-insensitive and nbformat does not restrict their spelling
+                keys += r.sample(["image/PNG", "text/Markdown", "Text/X-Custom"], 1)
         for k in keys:
             if k == "text/plain":
                 d[k] = self.text(OUT_LINES, 4) if r.random() < 0.7 else self.line(OUT_LINES)
-            elif k in ("image/png", "image/jpeg"):
+            elif k in ("image/png", "image/jpeg", "image/PNG"):
                 d[k] = b64(r, r.choice([6, 12, 30, 60, 90, 200]))
                 if r.random() < 0.2:
                     d[k] += "\n"
